@@ -70,9 +70,9 @@ theorem GenH.next_eq (hash : β → Nat) (d : HRec β) (m : HImage β) (b nd : N
       simp only [GenH.skipSt]
       by_cases h0 : nd' = 0
       · by_cases hc : m.hdr.cap % 4294967296 < b' + 1
-        · simp only [h0, hc, not_true_eq_false, if_true, if_false]; rfl
-        · simp only [h0, hc, not_true_eq_false, if_false]; rfl
-      · simp only [h0, not_false_eq_true, if_true]; rfl
+        · simp only [h0, hc, ne_eq, not_true_eq_false, if_true, if_false]; rfl
+        · simp only [h0, hc, ne_eq, not_true_eq_false, if_false]; rfl
+      · simp only [h0, ne_eq, not_false_eq_true, if_true]; rfl
   · simp only [hb, Nat.lt_of_not_le hb, if_false, if_true]; rfl
 
 /-- The skip loop leaves at once, by its condition, from a state with `node ≠ SENTINEL` (given any fuel at all). -/
